@@ -369,7 +369,17 @@ def execute(case, stage_hook=None):
         if stg.get("sweep_sequence") is not None:
             skw["sweep_sequence"] = stg["sweep_sequence"]
         n0 = len(dm.energies)
-        r.converged = bool(dm.solve(**skw))
+        try:
+            r.converged = bool(dm.solve(**skw))
+        except Exception as e:
+            if type(e).__name__ != "ArpackNoConvergence":
+                raise
+            # the local eigensolve gave up: classify by whether this call runs a one-site sweep straight after a bond
+            # expansion without re-canonisation (known defect C10-c makes the effective problem singular there)
+            seq = skw.get("sweep_sequence") or dm.opts["default_sweep_sequence"]
+            planned = [seq[k % len(seq)] for k in range(skw["max_sweeps"])]
+            alt = bool(r.bsz == 1 and any(a != b for a, b in zip(planned, planned[1:])))
+            raise Violation("local-eigensolve-failed", bsz=r.bsz, alt_expand_planned=alt, which=r.which, msg=str(e)[:80])
         n1 = len(dm.energies)
         if not (1 <= n1 - n0 <= skw["max_sweeps"]):
             raise Violation("sweep-count", got=n1 - n0, max_sweeps=skw["max_sweeps"])
